@@ -42,11 +42,14 @@ pub fn client_args(rng: &mut Rng, port: u16, proto: P, key: Option<&[u8]>, n: u3
         a.push("-k".into());
         a.push(key_text(rng, k));
     }
-    if rng.chance(1, 2) {
+    // -z alone, -f alone, and both together (the UTC and the local branch each format the time)
+    let shape = rng.below(4);
+    if shape != 1 {
         a.push("-z".into());
-    } else {
+    }
+    if shape != 0 {
         a.push("-f".into());
-        a.push("%Y-%m-%d %H:%M:%S.%f".into());
+        a.push((*rng.pick(&["%Y-%m-%d %H:%M:%S.%f", "%Y-%m-%d %H:%M:%S.%f", "%s.%6f", "%H:%M:%S%.3f %d %b %Y", "%s %9f", "%Y%m%d %H%M%S%.6f", "%s%.9f|%3f"])).to_string());
     }
     match rng.below(3) {
         0 => a.push("-j".into()),
